@@ -26,6 +26,9 @@ class FlatMapFuture(MapFuture):
 
         self.__flattened = True
         self._map_fn = lambda x: x
+        # The flattened future's outcome is mirrored as is: an error from it must
+        # not be passed to the user's error_fn (which applies to the input only).
+        self._error_fn = None
         self._set_delegate(result)
 
 
